@@ -38,6 +38,19 @@ theorem C18_isolation (c : Cfg) (s s' : Sys) (op : Op) (inv : Inv s) (ht : i2eCo
     s'.data.get p = s.data.get p :=
   step_isolated c s s' op inv ht h p o ho hown
 
+/-- **C18 (isolation over histories)**: along EVERY history outside the trigger (any length, any
+    interleaving), a page claimed by structure `o` keeps exactly the content `o` last stored — and `o`
+    keeps its claim — however much every OTHER structure grows or rewrites in the meantime -/
+theorem C18_run_isolation (c : Cfg) (ops₀ ops : List Op) (h : NoTrigger c (ops₀ ++ ops) = true)
+    (p : Nat) (o : Owner) (hown : (p, o) ∈ (run c (init c) ops₀).1.own)
+    (hw : ∀ op ∈ ops, writer op ≠ o) :
+    (run c (init c) (ops₀ ++ ops)).1.data.get p = (run c (init c) ops₀).1.data.get p ∧
+    (p, o) ∈ (run c (init c) (ops₀ ++ ops)).1.own := by
+  simp only [NoTrigger, Bool.not_eq_true'] at h
+  rw [run_append] at h ⊢
+  simp only [Bool.or_eq_false_iff] at h
+  exact run_isolated c ops _ (run_inv c ops₀ (init c) (init_inv c) h.1) h.2 p o hown hw
+
 /-- the allocator never hands out an allocated page (first free bit below next_page_id, else
     next_page_id), whatever was freed before -/
 theorem C18_allocate_fresh (c : Cfg) (s s' : Pg) (p : Nat) (ok : PgOK s) (h : allocate c s = .ok (p, s')) :
@@ -62,6 +75,13 @@ example : NoTrigger tiny exampleOps = true := by decide
 example : (run tiny (init tiny) exampleOps).1.own =
     [(7, .other 3), (6, .other 2), (5, .i2e), (4, .i2e), (3, .i2e), (2, .other 1)] := by decide
 example : Inv (init tiny) := init_inv tiny
+/-- `C18_run_isolation` is not vacuous: structure 1's page 2 survives five node creations, two foreign
+    allocations and a foreign rewrite (prefix = first op, suffix without `rewrite 1 2`) -/
+example : NoTrigger tiny ([.alloc 1] ++ (exampleOps.drop 1).dropLast.dropLast) = true ∧
+    (2, Owner.other 1) ∈ (run tiny (init tiny) [.alloc 1]).1.own ∧
+    (∀ op ∈ (exampleOps.drop 1).dropLast.dropLast, writer op ≠ .other 1) ∧
+    (run tiny (init tiny) ([.alloc 1] ++ (exampleOps.drop 1).dropLast.dropLast)).1.data.get 2 = some (.other 1, 0) := by
+  decide
 
 /-! ### counterexample -/
 
